@@ -380,10 +380,9 @@ pub fn encode(text: &str, enc: &Enc) -> Result<Vec<u8>, RErr> {
                 }
             }
             Enc::Ascii => {
-                if cp >= 0x80 {
-                    return Err(RErr::Unspec("ascii() of a non-ASCII character"));
-                }
-                out.push(cp as u8);
+                // the repository's own expectation (tests/string_encoding/ok.asm: ascii("àÿĀ") = 0xe0_ff_00,
+                // ascii("😀") = 0x00): one byte per character, its code point below 0x100, else 0x00
+                out.push(if cp < 0x100 { cp as u8 } else { 0 });
             }
             Enc::Utf16be | Enc::Utf16le => {
                 let mut units = vec![];
